@@ -18,24 +18,57 @@ KR, KI, W = V.atom("kr"), V.atom("ki"), V.atom("w")
 GLOBALS = {"M_INV_4PI": INV4PI}
 
 
+ROLE_NAMES = {
+    "regular": ("assembly_functions_regular", "kernel_functions_regular"),
+    "singular": ("assembly_functions_singular", "kernel_functions_singular"),
+    "sparse": ("assembly_functions_sparse", "kernel_functions_sparse"),
+    "potential": ("assembly_function_potential", "kernel_functions_potential"),
+}
+
+
+def registry_roles(ctx):
+    """mode -> (local dict returned as assembler registry, local dict returned as kernel registry, the two subscripts),
+    by executing select_numba_kernels for each mode (the registries are named by what the function does with them, not
+    by what its locals are called)."""
+    from . import dispatch
+    from .src import arg_names, unparse
+
+    fn = ctx.repo.mod(NK).fn("select_numba_kernels")
+    p = arg_names(fn)
+    out = {}
+    for mode in ROLE_NAMES:
+        kind, node = dispatch.select(fn, {p[1]: mode})
+        if not (kind == "return" and isinstance(node, ast.Tuple) and len(node.elts) == 2 and all(isinstance(e, ast.Subscript) and isinstance(e.value, ast.Name) for e in node.elts)):
+            raise AnalysisError("select_numba_kernels: mode %r does not return (<registry>[...], <registry>[...])" % mode)
+        a, b = node.elts
+        out[mode] = (a.value.id, b.value.id, unparse(a.slice).replace(" ", ""), unparse(b.slice).replace(" ", ""))
+    return out
+
+
 def registries(ctx):
-    """The registry dict literals of select_numba_kernels: name -> {key: function name}."""
+    """The registry dict literals of select_numba_kernels, keyed by role: {role name: {key: function name}}.
+
+    The role names are the conventional ones (assembly_functions_regular, kernel_functions_singular, ...); which local
+    dict plays a role is read from what select_numba_kernels returns for the mode (registry_roles)."""
     from .src import dict_literals
 
     m = ctx.repo.mod(NK)
     fn = m.fn("select_numba_kernels")
-    out = {}
+    by_local = {}
     for name, d in dict_literals(fn).items():
-        out[name] = {}
+        by_local[name] = {}
         for k, v in d.items():
             if not isinstance(v, ast.Name):
                 raise AnalysisError("registry %s[%r] is not a plain function name" % (name, k))
             if v.id not in m.functions:
                 raise AnalysisError("registry %s[%r] names unknown function %s" % (name, k, v.id))
-            out[name][k] = v.id
-    for need in ("kernel_functions_regular", "kernel_functions_singular"):
-        if need not in out:
-            raise AnalysisError("registry %s vanished from select_numba_kernels" % need)
+            by_local[name][k] = v.id
+    out = {}
+    for mode, (a, k, _, _) in registry_roles(ctx).items():
+        for role, local in zip(ROLE_NAMES[mode], (a, k)):
+            if local not in by_local:
+                raise AnalysisError("select_numba_kernels: mode %r returns from `%s`, which is not a dict literal of the function" % (mode, local))
+            out[role] = by_local[local]
     return out
 
 
